@@ -372,6 +372,9 @@ for _p in PROPS.values():
 # what later seeded rounds added to the level descriptions
 _MORE_LEVEL = {
     "C01": "Every slice handed to an earlier call of a case is re-checked after every later call (ledger); windows of 4090..9000 frames see 3-6 calls; striped input channels may share caller storage (prefixes of one array, pieces of one flat array).",
+    "C03": "Marathon cases: 300..70000 appends of short sources onto one header (shape checked at every step, contents at the end).",
+    "C04": "The sweep fills buffers of 70000..200000 samples one sample at a time, and goes on beyond.",
+    "C05": "Same-type conversions are also run in place (a window onto itself, through one and through two headers): nothing may change.",
     "C10": "Pooled buffers of 258..6000 samples with sparse single-sample writes far apart through a full window (gaps of untouched zeros).",
     "C12": "One Append between two windows of a parent of 66000..400000 samples (in place with the source before, overlapping and behind the region written; growing) is compared with copy/append on plain slices (Big cases).",
     "C15": "After every rejected conversion, Append and striped call the same operands are used again in calls with matching shapes, which must succeed with the expected effect.",
